@@ -153,7 +153,16 @@ func rcInput(id run.CaseID) (Paths, rectI) {
 	case "rc-wide-snap":
 		snap = true
 	}
-	return paths, pickRect(r, paths, snap)
+	q := pickRect(r, paths, snap)
+	switch id.Family { // fresh families only (the pools are a closed set)
+	case "rc-nested", "rc-simple", "rc-degenerate", "rc-big":
+		if r.Chance(0.15) { // a rectangle corner, a vertex or an edge/rectangle crossing exactly on the origin
+			dx, dy := anchorShift(r, []Paths{paths, {{{X: q.L, Y: q.T}, {X: q.R, Y: q.T}, {X: q.R, Y: q.B}, {X: q.L, Y: q.B}}}}, nil)
+			paths = gen.Translate(paths, dx, dy)
+			q = rectI{q.L + dx, q.T + dy, q.R + dx, q.B + dy}
+		}
+	}
+	return paths, q
 }
 
 func c06Run(ctx *run.Ctx, id run.CaseID) {
